@@ -60,6 +60,25 @@ fn show(o: &Outcome) -> String {
 
 /// Case kind: "try_from" [64-bit value].
 pub fn judge(case: &Case) -> Verdict {
+    if case.kind == "history" {
+        // a sequence of conversions: every step must answer as it would alone
+        for (i, b) in case.words.iter().enumerate() {
+            let exp = model(*b);
+            match guard(|| observe(*b)) {
+                Err(p) => return Verdict::Violated { class: "panic:history".into(), expected: show(&exp), observed: format!("step {}: panic: {}", i + 1, p) },
+                Ok((got, back)) => {
+                    if got != exp || back.map(|x| x != *b).unwrap_or(false) {
+                        return Verdict::Violated {
+                            class: if i == 0 { "try_from:first-call-wrong".into() } else { "history:answer-depends-on-the-previous-calls".into() },
+                            expected: format!("{} for bit-set {:#x} also after converting {:x?}", show(&exp), b, &case.words[..i]),
+                            observed: format!("step {}: {}", i + 1, show(&got)),
+                        };
+                    }
+                }
+            }
+        }
+        return Verdict::Holds;
+    }
     if case.kind != "try_from" {
         return Verdict::NotJudged("unknown kind".into());
     }
@@ -111,7 +130,7 @@ fn check(acc: &mut Acc, b: u64) {
     if !ok {
         match confirm(judge, Case::new("try_from", &[b])) {
             Some(v) => acc.violate(v),
-            None => monitor::machinery_fail("C16 mismatch not reproduced"),
+            None => super::unreproduced("C16 mismatch not reproduced"),
         }
     }
 }
@@ -180,6 +199,40 @@ pub fn run(ctx: &Ctx, rep: &mut Report) {
         });
         let acc = Acc::merged(accs);
         rep.add_space("all C(64,4) four-bit values and their complements", &acc, t0, "");
+    }
+    // call sequences: all ordered pairs and triples over the 64 sets of a 6-bit universe (two low card bits, two high
+    // card bits, two non-card bits) - a memo of an earlier conversion must not leak into a later one
+    {
+        let t0 = Instant::now();
+        let uni = [0u32, 1, 50, 51, 52, 63];
+        let vals: Vec<u64> = (0..64u64).map(|c| (0..6).filter(|i| c >> i & 1 == 1).fold(0u64, |m, i| m | 1u64 << uni[i])).collect();
+        let accs = par_parts(1, |_| {
+            let mut acc = Acc::new(4);
+            for a in &vals {
+                for b in &vals {
+                    for c in vals.iter().map(Some).chain(std::iter::once(None)) {
+                        let mut seq = vec![*a, *b];
+                        if let Some(c) = c {
+                            seq.push(*c);
+                        }
+                        acc.cases += 1;
+                        acc.calls += seq.len() as u64;
+                        if seq.iter().any(|v| v.count_ones() == 2) {
+                            acc.nontrivial += 1;
+                        }
+                        if let Verdict::Violated { .. } = judge(&Case::new("history", &seq)) {
+                            match confirm(judge, Case::new("history", &seq)) {
+                                Some(v) => acc.violate(v),
+                                None => super::unreproduced(&format!("C16 history {:x?} not reproduced", seq)),
+                            }
+                        }
+                    }
+                }
+            }
+            acc
+        });
+        let acc = Acc::merged(accs);
+        rep.add_space("histories: every sequence of two and of three conversions over the 64 sets of a 6-bit universe", &acc, t0, "single-threaded; each step judged as if alone");
     }
     rep.sample(sample_json("try_from", "bits 51 and 0", &show(&observe(1 << 51 | 1).0)));
     rep.sample(sample_json("try_from", "bits 52 and 0", &show(&observe(1 << 52 | 1).0)));
